@@ -14,6 +14,15 @@
 //     (Format(env)), the truncation being done on the wall clock of the zone the text was written in.
 //     Instants whose year is outside 1..9999 in the value zone or the environment zone are outside the
 //     statement's quantifier and are skipped (counted).
+//     DST folds: the environment formats carry no offset, so in an hour the clock repeats both instants
+//     render to one text and only one of them can come back. The statement quantifies over "all
+//     instants ... in any timezone" and asks for "the same value", and "precision" is read as time
+//     granularity, not as licence to lose the offset: the case is therefore reported - under its own
+//     key env-format:dst-fold-ambiguous, only when the text read back is the identical wall-clock
+//     reading and that reading provably occurs twice in the zone - as a genuine but inherent defect
+//     (no repair short of changing the format). When an offset transition falls strictly inside the
+//     truncated minute/second (LMT changes at odd seconds) "the original at the rendered precision"
+//     is not one instant; any instant with the same reading is accepted (counted).
 //   - date / time: likewise for XDate and XTime (ISO form and environment date resp. time format).
 //   - JSON: json(parse_json(doc)) decodes (encoding/json, UseNumber) to the same tree as doc, where
 //     objects are compared as key -> value maps in which the LAST duplicate key wins (ECMA-262
@@ -21,7 +30,8 @@
 //     keeps the last), keys differing only in case are different keys, numbers are compared as
 //     decimals (so 1E+2 == 100, 0.10 == 0.1, -0 == 0), strings as sequences of code points after
 //     unescaping, a lone surrogate escape being read as U+FFFD (what encoding/json and every
-//     UTF-8-based reader makes of it).
+//     UTF-8-based reader makes of it). A document that json.Valid accepts but parse_json rejects has not
+//     survived either and is reported.
 //   - '=':      operators.Equal(a, b) is true exactly when the canonical renderings (Render) of a and b
 //     are the same text; a value equals its own rendering as text and the value parsed back from it;
 //     for numbers the rendering is canonical: two decimals render to the same text exactly when they
